@@ -67,3 +67,19 @@ Example cmap4_map_ok : cmap4_map 4 [65; 65535] [70; 65535] [0; 1] [4; 0] [10; 11
 Proof. vm_compute; reflexivity. Qed.
 Example checksum_ok : compute_checksum [0; 1; 2; 3; 255; 255; 255; 255; 9] = Some 151060994.
 Proof. vm_compute; reflexivity. Qed.
+
+(* ---- round 2 ---- *)
+Example interpreter_arith_examples :
+  op_add 2147483647 1 = Some (-2147483648) /\ op_sub (-2147483648) 1 = Some 2147483647
+  /\ op_div 64 0 = Some None /\ op_div 640 128 = Some (Some 320) /\ op_mul 128 128 = Some 256
+  /\ op_abs (-2147483648) = Some (-2147483648) /\ op_neg (-2147483648) = Some (-2147483648).
+Proof. repeat split; vm_compute; reflexivity. Qed.
+Example cvt_examples :
+  cvt_load 32767 = Some 2097088 /\ cvt_load_cvar (-32768) (-2147483648) = Some (-4194304)
+  /\ (do s <- compute_scale 16 1000 ;; cvt_scale 6400 s) = Some 102.
+Proof. repeat split; vm_compute; reflexivity. Qed.
+Example phantom_points_extreme :
+  phantom_points (-32768) 32767 32767 65535 32767 (-32768) = Some (-65535, 0, 32767, -32768).
+Proof. vm_compute; reflexivity. Qed.
+Example delta_interp_example : delta_interp 0 100 (10 * 65536) (130 * 65536) 50 0 = Some 4587510.
+Proof. vm_compute; reflexivity. Qed.
